@@ -119,6 +119,32 @@ def _lead(F):
 # --------------------------------------------------------------------------
 
 def gen_mm_fit(g, kind, method=None, D=None, iterations=None):
+    a = _gen_mm_fit(g, kind, method, D, iterations)
+    # streams of equally shaped problems (utterance after utterance) are the
+    # normal way a trainer object is re-used: repeat an earlier shape with
+    # other data
+    tmpl = getattr(g, 'shape_templates', None)
+    if tmpl is None:
+        tmpl = g.shape_templates = {}
+    if kind in tmpl and g.coin(0.4) and D is None:
+        b = _reseed(g, tmpl[kind])
+        b['method'] = a['method']
+        b['iterations'] = a['iterations']
+        return b
+    tmpl[kind] = a
+    return a
+
+
+def _reseed(g, a):
+    import copy
+    b = copy.deepcopy(a)
+    for k, v in b.items():
+        if isinstance(v, dict) and 'seed' in v and 'kind' in v and 'shape' in v:
+            v['seed'] = g.seed()
+    return b
+
+
+def _gen_mm_fit(g, kind, method=None, D=None, iterations=None):
     K = g.K()
     D = D or g.D()
     opts = {}
@@ -183,7 +209,7 @@ def gen_mm_fit(g, kind, method=None, D=None, iterations=None):
             opts['eigenvalue_floor'] = g.choice([1e-10, 1e-6, 0.01])
         if start == 'array' and g.coin(0.25) and a['init']['shape'] == lead + [K, N]:
             a['sam'] = g.arr('activity', lead + [K, N], reuse=False,
-                             class_off=g.coin(0.4))
+                             class_off=g.coin(0.4), silent_frames=g.coin(0.3))
     if kind in ('gmm', 'gcacgmm'):
         ct = g.choice(['full', 'diagonal', 'spherical'])
         if kind == 'gmm' and F > 0:
@@ -563,7 +589,8 @@ class _Lp2Aff:
              'lp': g.arr('normal', [F, K, N]),
              'eps': g.choice([0.0, 1e-10, 1e-3])}
         if g.coin(0.4):
-            a['sam'] = g.arr('activity', [F, K, N], reuse=False)
+            a['sam'] = g.arr('activity', [F, K, N], reuse=False,
+                             silent_frames=g.coin(0.4))
         a['inline'] = g.coin(0.3)
         if a['inline']:
             a['lp2'] = g.arr('normal', [F, K, N])
@@ -671,7 +698,7 @@ class _InitIid:
                 'K': g.K(), 'pf': g.coin(),
                 'which': g.choice(['uniform_normalized', 'dirichlet_uniform',
                                    'dirichlet', 'one_hot']),
-                'alpha': float(g.choice([0.5, 1, 3]))}
+                'alpha': float(g.choice([0.5, 1, 3, 0.05, 0.01]))}
 
     @staticmethod
     def run(ctx, a):
@@ -1234,3 +1261,96 @@ class _BfUtils:
                                                   ctx.arr(a['sensors']))
         return u.get_farfield_time_difference_of_arrival(
             ctx.arr(a['src']), ctx.arr(a['sensors']))
+
+
+# --------------------------------------------------------------------------
+# recycled buffers: the result depends on the CONTENT of the arguments, not
+# on which buffer carries it
+# --------------------------------------------------------------------------
+
+class PurityViolation(Exception):
+    pass
+
+
+class _RecycleCtx:
+    """Serves every array spec through a caller-owned buffer that is refilled
+    between two calls (phase 0: the spec's content, phase 1: the content of
+    the same spec with another seed -- same address, shape, strides, dtype)."""
+
+    def __init__(self, ctx, buffers=None, phase=0, use_buffers=True):
+        self.ctx, self.phase, self.use_buffers = ctx, phase, use_buffers
+        self.buffers = {} if buffers is None else buffers
+        self.sources = {}
+
+    def _swapped(self, spec):
+        if self.phase == 0 or 'seed' not in spec:
+            return spec
+        return dict(spec, seed=int(spec['seed']) + 7919)
+
+    def arr(self, spec):
+        import json
+        src = self.ctx.arr(self._swapped(spec))
+        if not self.use_buffers:
+            # a fresh allocation with the layout of the buffers (C order):
+            # only the address differs from the recycled-buffer call
+            fresh = np.empty(src.shape, dtype=src.dtype)
+            fresh[...] = src
+            return fresh
+        key = json.dumps(spec, sort_keys=True)
+        buf = self.buffers.get(key)
+        if buf is None:
+            buf = self.buffers[key] = np.empty(src.shape, dtype=src.dtype)
+        buf[...] = src
+        self.sources[key] = src
+        return buf
+
+    def check_untouched(self):
+        for key, src in self.sources.items():
+            if self.buffers[key].tobytes() != np.ascontiguousarray(src).tobytes():
+                raise PurityViolation('a caller-owned buffer was modified')
+
+    def model(self, ref):
+        return self.ctx.model(ref)
+
+    def trainer(self, kind, kwargs=None, dim=None):
+        return self.ctx.trainer(kind, kwargs, dim=dim)
+
+    def aligner(self, spec):
+        return self.ctx.aligner(spec)
+
+
+RECYCLE_TARGETS = ['model.predict', 'model.predict', 'model.log_likelihood',
+                   'dist.log_pdf', 'bf.psd', 'mask', 'normalize_observation',
+                   'pa.aligner', 'pa.functions', 'metric', 'bf.primitives',
+                   'mmu.log_pdf_to_affiliation', 'cacg.from_covariance']
+
+
+@entry('recycle', weight=5, group='mixture')
+class _Recycle:
+    @staticmethod
+    def gen(g):
+        for _ in range(4):
+            t = g.choice(RECYCLE_TARGETS)
+            a = ENTRIES[t].gen(g)
+            if a is not None:
+                return {'target': t, 'a': a, 'which': a.get('which') or a.get('variant')}
+        return None
+
+    @staticmethod
+    def run(ctx, a):
+        from . import digest as dg
+        run = ENTRIES[a['target']].run
+        c0 = _RecycleCtx(ctx, phase=0)
+        r1 = run(c0, a['a'])
+        c0.check_untouched()
+        c1 = _RecycleCtx(ctx, buffers=c0.buffers, phase=1)
+        r2 = run(c1, a['a'])
+        c1.check_untouched()
+        r3 = run(_RecycleCtx(ctx, phase=1, use_buffers=False), a['a'])
+        d = dg.first_difference(r2, r3, 'result')
+        if d:
+            raise PurityViolation(
+                'the same argument values give another result when they '
+                'arrive in a buffer that carried other data during an '
+                'earlier call: ' + d)
+        return [r1, r2]
